@@ -381,6 +381,26 @@ class Check(PropertyCheck):
                 idx_e = max(i for i, fr in enumerate(ev[1]) if fr[0] == "ERROR") if err else -1
                 idx_r = max(i for i, fr in enumerate(ev[1]) if fr[0] == "RSTACK")
                 failed_since = None if idx_r > idx_e else len(order)
+        # a send returns after an acknowledgement covering its frame: when the read carries nothing but such an
+        # acknowledgement for the outstanding frame (link up, caller still waiting), the send returns in that step
+        out_frm, link_failed = None, False
+        for ev, st in zip(case["_events"], obs["steps"]):
+            if ev[0] == "frames" and len(ev[1]) == 1 and ev[1][0][0] == "ACK" and out_frm is not None and not link_failed \
+                    and ev[1][0][3] == (out_frm + 1) % 8:
+                if not any(e[0] == "done" and e[2] == [0] for e in st):
+                    return (f"an ACK with ackNum {ev[1][0][3]} covering the outstanding frame {out_frm} did not complete the send "
+                            f"(the frame is treated as unacknowledged)")
+            if ev[0] == "cancel":
+                out_frm = None             # the waiting caller may be the one cancelled: no expectation for this frame
+            for e in st:
+                if e[0] == "w" and e[1] == "data":
+                    if not e[3]:
+                        out_frm = e[2]     # first transmission; a frame first sent before an RSTACK carries a stale number
+                elif e[0] == "done":
+                    out_frm = None
+                elif e[0] == "reset":
+                    link_failed = e[1] not in (11, 2)
+                    out_frm = None
         # outcome OK only with a covering acknowledgement in the very event that completed it
         cur_frm = None
         for ev, st in zip(case["_events"], obs["steps"]):
